@@ -69,6 +69,11 @@ static int sym_vis() { int v = nondet_int(); ASSUME(v >= (int)V_published && v <
 
 NOINL static void set_vis(CPPDeclaration *d, int vis) { d->_vis = (CPPVisibility)vis; }
 
+NOINL static void set_file(CPPStructType *t, int source, char ext) {
+  t->_file._source = (CPPFile::Source)source;
+  t->_file._filename._filename[2] = ext;
+}
+
 // what CPPScope::add_declaration + handle_declaration do with a method declaration
 NOINL static CPPInstance *add_method(CPPScope *scope, const char *name, CPPType *ret, int vis) {
   CPPFunctionType *ftype = new CPPFunctionType(ret, new CPPParameterList, 0);
@@ -101,14 +106,9 @@ extern "C" void harness_c04_struct_define() {
   if (!ignored) ign[0] = 'b';
   b->_ignorefile.insert(ign);
 
-  // the file the classes are declared in: symbolic source class and extension
+  // the file the classes are declared in (its symbolic source class and extension are written into Impl's own copy below:
+  // copying a string with a symbolic byte makes the whole copy symbolic)
   CPPFile *file = new CPPFile(Filename("a.h"), Filename("a.h"), CPPFile::S_local);
-  int source = nondet_int(); ASSUME(source >= (int)CPPFile::S_local && source <= (int)CPPFile::S_none);
-  file->_source = (CPPFile::Source)source;
-  unsigned char e = nondet_uchar(); ASSUME(e < 4);
-  static const char EXT[4] = {'h', 'c', 'C', 'i'};
-  file->_filename._filename[2] = EXT[e];
-  bool is_c = (e == 1 || e == 2);
 
   CPPType *t_void = new CPPSimpleType(CPPSimpleType::T_void);
   CPPType *t_int = new CPPSimpleType(CPPSimpleType::T_int);
@@ -124,6 +124,11 @@ extern "C" void harness_c04_struct_define() {
   CPPStructType *Impl = new CPPStructType(CPPExtensionType::T_class, new CPPIdentifier(std::string("Impl")), wscope, iscope, *file);
   iscope->set_struct_type(Impl);
   Impl->_incomplete = false;
+  int source = nondet_int(); ASSUME(source >= (int)CPPFile::S_local && source <= (int)CPPFile::S_none);
+  unsigned char e = nondet_uchar(); ASSUME(e < 4);
+  static const char EXT[4] = {'h', 'c', 'C', 'i'};
+  set_file(Impl, source, EXT[e]);
+  bool is_c = (e == 1 || e == 2);
   int m1_vis = sym_vis(), m2_vis = sym_vis();
   CPPInstance *poke = add_method(iscope, "poke", t_void, m1_vis);
   CPPInstance *secret = add_member(iscope, "secret", t_int, m2_vis);
@@ -154,14 +159,19 @@ extern "C" void harness_c04_struct_define() {
 #endif
 
   // ---- the property's clauses (safety) ----
+  // "exported" = anything of Impl recorded / registered; "opaque" = additionally the F_fully_defined mark is withdrawn.
+  // (For a class from a .c/.cxx file define_struct_type returns before every other gate and leaves the mark get_type set,
+  // with nothing recorded: there only "nothing exported" is claimed.)
   bool is_protected = decl_vis > (int)V_public;                   // declared in a protected: / private: section of W
-  ASSERT(!is_protected || (!fully && !exported),
-         "C04 a nested class declared in a protected/private section stays an opaque reference: not fully defined, no method, data member, constructor or destructor exported");
+  ASSERT(!is_protected || !exported,
+         "C04 nothing of a nested class declared in a protected/private section is exported: no method, data member, constructor, destructor, nested type or base");
+  ASSERT(!is_protected || is_c || !fully,
+         "C04 a nested class declared in a protected/private section stays an opaque reference (not fully defined)");
   bool own_visible = decl_vis <= (int)min_vis;
   bool member_visible = m1_vis <= (int)min_vis || m2_vis <= (int)min_vis;
-  ASSERT(own_visible || member_visible || (!fully && !exported),
+  ASSERT(own_visible || member_visible || (!exported && (is_c || !fully)),
          "C04 a class that neither has the requested visibility nor a member that has it is not defined");
-  ASSERT(forced || (source == (int)CPPFile::S_local && !ignored) || (!fully && !exported),
+  ASSERT(forced || (source == (int)CPPFile::S_local && !ignored) || (!exported && (is_c || !fully)),
          "C04 a class from a file that was not named on the command line (or is ignorefile'd) is defined only under forcetype");
   ASSERT(!is_c || !exported, "C04 nothing of a class declared in a .c/.cxx file is exported");
 
